@@ -458,8 +458,24 @@ let op_dns opidx (_impl : string list option) (kind : string) toks =
      | Ok None -> pr "obs %d srv none\n" opidx
      | Ok (Some r) -> pr "obs %d srv %d %d %d %s\n" opidx (int_of_n r.sr_priority) (int_of_n r.sr_weight) (int_of_n r.sr_port) (hexs r.sr_host))
 
+(* dynsrv: host list of a server configured from an SRV answer *)
+let op_dynsrv opidx (_impl : string list option) toks =
+  match toks with
+  | user :: recs ->
+      let id = bytes_of_hex user in
+      (match dynrealm id with
+       | None -> pr "obs %d dynsrv none\n" opidx
+       | Some _ ->
+           let parsed = List.filter_map (fun t -> match String.split_on_char ':' t with
+               | [ prio; _w; port; host ] -> Some ((n_of_int (int_of_string prio), n_of_int (int_of_string port)), bytes_of_hex host)
+               | _ -> None) recs in
+           if parsed = [] then pr "obs %d dynsrv 0\n" opidx
+           else pr "obs %d dynsrv 1%s\n" opidx (String.concat "" (List.map (fun b -> " " ^ hex_of_bytes b) (srv_hostports parsed))))
+  | [] -> ()
+
 let run (opidx : int) (impl : string list option) (toks : string list) : bool =
   match toks with
+  | "dynsrv" :: rest -> op_dynsrv opidx impl rest; true
   | "naptr" :: rest -> op_dns opidx impl "naptr" rest; true
   | "srv" :: rest -> op_dns opidx impl "srv" rest; true
   | "choose" :: rest -> op_choose opidx impl rest; true
